@@ -124,7 +124,9 @@ Definition sl_step (w : slw) (c : wcall) : slw * list wcall :=
       else if sl_limit w <? sl_written w + n then
         if sl_wrote w
         then ({| sl_written := sl_written w; sl_limit := sl_limit w; sl_reached := true; sl_wrote := true; sl_status := sl_status w |}, [])
-        else ({| sl_written := sl_written w; sl_limit := sl_limit w; sl_reached := true; sl_wrote := true; sl_status := 413 |}, [CHead 413])
+        else ({| sl_written := sl_written w; sl_limit := sl_limit w; sl_reached := true; sl_wrote := true; sl_status := 413 |},
+              (* the 413 drops the backend's Content-Length and is flushed at once: a proxy aborts the handler right after *)
+              [CDel H_CL; CHead 413; CFlush])
       else
         let '(w1, pre) := sl_ensure w in
         let acc := if body_allowed (sl_status w1) then Z.max 0 n else 0 in
@@ -137,6 +139,27 @@ Fixpoint sl_run (w : slw) (cs : list wcall) : slw * list wcall :=
   match cs with
   | [] => (w, [])
   | c :: t => let '(w1, o1) := sl_step w c in let '(w2, o2) := sl_run w1 t in (w2, o1 ++ o2)
+  end.
+
+(* the handler panics (http.ErrAbortHandler) right after the first Write this wrapper refuses, as httputil.ReverseProxy does
+   when copying the response fails: the calls made up to and including that write, and whether one was refused *)
+Fixpoint sl_cut (w : slw) (cs : list wcall) : list wcall * bool :=
+  match cs with
+  | [] => ([], false)
+  | c :: t =>
+      let refused := match c with CWrite p => sl_reached w || (sl_limit w <? sl_written w + payload_len p) | _ => false end in
+      if refused then ([c], true)
+      else let '(r, f) := sl_cut (fst (sl_step w c)) t in (c :: r, f)
+  end.
+
+(* what a client has received when the connection is torn down by an aborted handler: only what had been flushed *)
+Definition view_aborted (b : base) : cview :=
+  match b_commit b, rev (b_flushes b) with
+  | Some (c, h), n :: _ =>
+      let body := firstn (Z.to_nat n) (b_body b) in
+      {| v_interim := b_interim b; v_status := c; v_ct := (if Z.eqb c 304 then None else lookup H_CT h); v_ce := lookup H_CE h;
+         v_app := filter (fun kv => 10 <=? fst kv) h; v_decoded := decode (lookup H_CE h) body; v_raw_parts := zlen body |}
+  | _, _ => {| v_interim := b_interim b; v_status := 0; v_ct := None; v_ce := None; v_app := []; v_decoded := Some 0; v_raw_parts := 0 |}
   end.
 
 (* after next.ServeHTTP returns: a recorded status that was never sent is sent now *)
